@@ -64,51 +64,51 @@ class AberrationOperand:
 
     @staticmethod
     def TSC(optic, surface_number):
-        return optic.aberrations.TSC()[surface_number]
+        return optic.aberrations.TSC()[surface_number - 1]
 
     @staticmethod
     def SC(optic, surface_number):
-        return optic.aberrations.SC()[surface_number]
+        return optic.aberrations.SC()[surface_number - 1]
 
     @staticmethod
     def CC(optic, surface_number):
-        return optic.aberrations.CC()[surface_number]
+        return optic.aberrations.CC()[surface_number - 1]
 
     @staticmethod
     def TCC(optic, surface_number):
-        return optic.aberrations.TCC()[surface_number]
+        return optic.aberrations.TCC()[surface_number - 1]
 
     @staticmethod
     def TAC(optic, surface_number):
-        return optic.aberrations.TAC()[surface_number]
+        return optic.aberrations.TAC()[surface_number - 1]
 
     @staticmethod
     def AC(optic, surface_number):
-        return optic.aberrations.AC()[surface_number]
+        return optic.aberrations.AC()[surface_number - 1]
 
     @staticmethod
     def TPC(optic, surface_number):
-        return optic.aberrations.TPC()[surface_number]
+        return optic.aberrations.TPC()[surface_number - 1]
 
     @staticmethod
     def PC(optic, surface_number):
-        return optic.aberrations.PC()[surface_number]
+        return optic.aberrations.PC()[surface_number - 1]
 
     @staticmethod
     def DC(optic, surface_number):
-        return optic.aberrations.DC()[surface_number]
+        return optic.aberrations.DC()[surface_number - 1]
 
     @staticmethod
     def TAchC(optic, surface_number):
-        return optic.aberrations.TAchC()[surface_number]
+        return optic.aberrations.TAchC()[surface_number - 1]
 
     @staticmethod
     def LchC(optic, surface_number):
-        return optic.aberrations.LchC()[surface_number]
+        return optic.aberrations.LchC()[surface_number - 1]
 
     @staticmethod
     def TchC(optic, surface_number):
-        return optic.aberrations.TchC()[surface_number]
+        return optic.aberrations.TchC()[surface_number - 1]
 
     @staticmethod
     def TSC_sum(optic):
